@@ -91,6 +91,23 @@ func vStep(db *DB, opts Options, kp *vPool, m *vModel, ops []int, id string) *DB
 		verifAssert(db.Sync() == nil, id+".sync-err")
 	case vOpMerge:
 		// a refused merge must change nothing; an accepted one must change nothing either
+		if pct := verifParam("ratio_pct"); pct > 0 {
+			// merge-ratio policy: refused exactly when more than ratio_floor bytes are stored (the 256 MiB floor,
+			// scaled by the job) and the reclaimable share is below the configured ratio; Stat is checked exact
+			// elsewhere (C17), so it is an independent source for both sizes
+			st := db.Stat()
+			want := st.DiskSize > int64(verifParam("ratio_floor")) && float32(st.ReclaimableSize)/float32(st.DiskSize) < opts.DataFileMergeRatio
+			err := db.Merge()
+			verifAssert((err == ErrMergeRatioUnreached) == want, id+".merge-ratio-policy")
+			verifAssert(err == nil || err == ErrMergeRatioUnreached, id+".merge-refused")
+			if err != nil {
+				verifReach("merge-refused-by-ratio")
+			} else if st.DiskSize > int64(verifParam("ratio_floor")) {
+				verifReach("merge-allowed-by-ratio")
+			}
+			verifReach("merged")
+			break
+		}
 		_ = db.Merge()
 		verifReach("merged")
 	case vOpRestart:
